@@ -97,6 +97,10 @@ class BasePath(safe_str.safe_string):
 
         drive = drive.replace('\\', '/')
         path, isdir = cls.__normpath(path)
+        if drive and path.startswith(posixpath.sep * 2):
+            # A doubled separator is only special at the very start of a path,
+            # not after a drive.
+            path = path[1:]
         return drive, path, isdir
 
     @classmethod
